@@ -522,14 +522,70 @@ class Evaluator:
             st.elem_ver[a] = st.elem_ver.get(a, 0) + 1
         st.epoch += 1
 
+    def _literal_items(self, st: _State, it: Term) -> Optional[List[Term]]:
+        """elements of a short literal tuple/list the loop iterates over (None if not literal)"""
+        lit: Optional[Term] = None
+        if it[0] in ("tuple", "list"):
+            lit = it
+        elif it[0] == "sym" and it in st.fresh:
+            for e in reversed(st.events):
+                if e.kind == "note" and e.data.get("what") == "alloc" and e.data.get("sym") == it:
+                    lit = e.data["literal"]
+                    break
+                if e.kind == "call" and e.data.get("mutates") == it:
+                    return None
+            if lit is not None and any(e.kind == "call" and e.data.get("mutates") == it for e in st.events):
+                return None
+        if lit is None or lit[0] not in ("tuple", "list") or not (1 <= len(lit[1]) <= 12) or any(x[0] == "star" for x in lit[1]):
+            return None
+        return list(lit[1])
+
+    def _exec_unrolled(self, st: _State, node: ast.For, items: List[Term]) -> List[Tuple[_State, Optional[Tuple]]]:
+        """for x in (a, b, c): body [else: tail]  -- executed element by element"""
+        live: List[_State] = [st]
+        done: List[Tuple[_State, Optional[Tuple]]] = []
+        broke: List[_State] = []
+        for item in items:
+            nxt: List[_State] = []
+            for s in live:
+                self._assign(s, node.target, item, node)
+                for s2, ex in self._exec_block([s], node.body):
+                    if ex is None or ex[0] == "continue":
+                        nxt.append(s2)
+                    elif ex[0] == "break":
+                        broke.append(s2)
+                    else:
+                        done.append((s2, ex))
+            live = nxt
+            if not live:
+                break
+        if node.orelse:
+            done.extend(self._exec_block(live, node.orelse))
+        else:
+            done.extend((s, None) for s in live)
+        done.extend((s, None) for s in broke)
+        return done
+
     def _exec_loop(self, st: _State, node: ast.stmt) -> List[Tuple[_State, Optional[Tuple]]]:
+        if isinstance(node, ast.For) and isinstance(node.target, (ast.Name, ast.Tuple)):
+            out: List[Tuple[_State, Optional[Tuple]]] = []
+            for s, it in self._eval(st, node.iter):
+                items = self._literal_items(s, it)
+                if items is not None:
+                    out.extend(self._exec_unrolled(s, node, items))
+                else:
+                    out.extend(self._exec_loop_summary(s, node, [(s, it)]))
+            return out
+        return self._exec_loop_summary(st, node, None)
+
+    def _exec_loop_summary(self, st: _State, node: ast.stmt, pre: Optional[List[Tuple[_State, Term]]]) -> List[Tuple[_State, Optional[Tuple]]]:
         self._loopid += 1
         lid = self._loopid
         out: List[Tuple[_State, Optional[Tuple]]] = []
         is_for = isinstance(node, ast.For)
         starts: List[Tuple[_State, Optional[Term]]]
         if is_for:
-            starts = [(s, it) for s, it in self._eval(st, node.iter)]
+            starts = [(s, it) for s, it in (pre if pre is not None else self._eval(st, node.iter))]
         else:
             starts = [(st, None)]
         for s, it in starts:
@@ -810,7 +866,10 @@ class Evaluator:
             out = []
             for s, t in self._eval(st, e.operand):
                 if isinstance(e.op, ast.Not):
-                    out.append((s, ("not", t)))
+                    if t[0] == "const" and isinstance(t[1], bool):
+                        out.append((s, const(not t[1])))  # a flag argument of an inlined helper
+                    else:
+                        out.append((s, ("not", t)))
                 elif isinstance(e.op, ast.USub):
                     if t[0] == "const" and isinstance(t[1], (int, float)) and not isinstance(t[1], bool):
                         out.append((s, const(-t[1])))
@@ -875,6 +934,13 @@ class Evaluator:
                 if isinstance(v, ast.FormattedValue):
                     self._eval_quiet(st, v.value)
             return [(st, ("fstr",))]
+        if isinstance(e, (ast.Yield, ast.YieldFrom)):
+            out = []
+            src = e.value if e.value is not None else ast.Constant(value=None)
+            for s, v in self._eval(st, src):
+                self._emit(s, "yield", e, value=v)
+                out.append((s, ("sym", "<sent>")))
+            return out
         if isinstance(e, ast.NamedExpr):
             out = []
             for s, v in self._eval(st, e.value):
@@ -1071,10 +1137,60 @@ class Evaluator:
                 return False
         return True
 
+    def _dyn_site(self, e: ast.Call, site: CallSite, fterm: Term, recv: Optional[Term]) -> Tuple[CallSite, Optional[str]]:
+        """resolve calls the static resolver cannot see: class objects held in variables,
+        methods selected by a conditional expression or getattr(self, 'name')"""
+        if site.targets or site.how in ("ctor",):
+            return site, None
+        p = self.program
+        if fterm[0] == "name":
+            cname = fterm[1].split(".")[-1]
+            if cname in p.classes and (fterm[1].startswith(p.pkg + ".") or fterm[1] == cname):
+                init = p.lookup_method(cname, "__init__")
+                return CallSite(site.caller, e, [init] if init else [], "ctor", cname, [cname]), cname
+        if fterm[0] == "attr" and fterm[1] == ("sym", "self") and self._cur_func.cls is not None:
+            owner = self._cur_func
+            m = p.lookup_method(owner.cls.name, fterm[2])
+            if m is not None:
+                tg = [m] + [o for o in p.overrides(owner.cls.name, fterm[2])]
+                return CallSite(site.caller, e, tg, "exact" if len(tg) == 1 else "cha", fterm[2], [owner.cls.name]), fterm[2]
+        return site, None
+
     def _apply(self, st: _State, e: ast.Call, fterm: Term, recv: Optional[Term], args: List[Term], kws: List[Tuple[str, Term]]) -> List[Tuple[_State, Term]]:
+        # calling a lambda term: substitute its parameters
+        if fterm[0] == "lambda" and len(fterm[1]) == len(args) and not kws:
+            from .terms import substitute
+
+            return [(st, substitute(fterm[2], {("bound", p_): a for p_, a in zip(fterm[1], args)}))]
+        # getattr(obj, 'name')(...) is a method call
+        if fterm[0] == "call" and fterm[1] == ("name", "getattr") and len(fterm[2]) == 2 and fterm[2][1][0] == "const" and isinstance(fterm[2][1][1], str):
+            recv = fterm[2][0]
+            fterm = ("attr", recv, fterm[2][1][1])
+        # f(**{...}) with a literal dict: spread the keywords
+        if any(k == "**" for k, _ in kws):
+            nk: List[Tuple[str, Term]] = []
+            for k, v in kws:
+                lit = None
+                if k == "**":
+                    lit = v if v[0] == "dict" else None
+                    if lit is None and v[0] == "sym":
+                        for ev0 in reversed(st.events):
+                            if ev0.kind == "note" and ev0.data.get("what") == "alloc" and ev0.data.get("sym") == v:
+                                lit = ev0.data["literal"]
+                                break
+                if lit is not None and lit[0] == "dict" and all(kk is not None and kk[0] == "const" and isinstance(kk[1], str) for kk, _ in lit[1]):
+                    nk.extend((kk[1], vv) for kk, vv in lit[1])
+                else:
+                    nk.append((k, v))
+            kws = nk
+        if recv is None and fterm[0] == "attr":
+            recv = fterm[1]
         site = self._site(e)
+        site, dyn_name = self._dyn_site(e, site, fterm, recv)
         fname = _name_of(e.func) or ""
-        short = fname.split(".")[-1]
+        short = dyn_name or fname.split(".")[-1]
+        if dyn_name and fterm[0] == "attr":
+            fname = "self." + dyn_name
         in_sub = bool(self._ctx) and self._ctx[-1] in ("lambda", "comp")
         # inline?
         if (
@@ -1183,6 +1299,12 @@ class Evaluator:
                 env[ka.arg] = kws[ka.arg]
             elif kd is not None:
                 env[ka.arg] = self._eval_quiet(st, kd)
+        if a.kwarg is not None:
+            used = set(env.keys())
+            rest_kw = [(k2, v2) for k2, v2 in kws.items() if k2 not in all_pos and k2 not in [x.arg for x in a.kwonlyargs]]
+            env[a.kwarg.arg] = self._fresh(st, ("dict", tuple((const(k2), v2) for k2, v2 in rest_kw)), node)
+        if a.vararg is not None:
+            env[a.vararg.arg] = ("tuple", tuple(pos[len(params):])) if len(pos) > len(params) else ("tuple", ())
         if tgt.outer is not None:
             # closure: inherit the caller's environment for free variables
             for k2, v2 in st.env.items():
